@@ -27,7 +27,7 @@ theorem mainStep_inv {c : Ctl.State (Load.State τ) τ} {k : Nat} {w w' : Wk τ}
     simp only [hph] at hm
     have he := h.early (Or.inr hph)
     cases p with
-    | collect errs garbage =>
+    | collect errs garbage intr sf0 =>
       simp only at hm
       have hevs : ∀ e ∈ errs.map (fun (e : String × Bool) => Ctl.Event.collectreport (τ := τ) k e.1 e.2) ++ [Ctl.Event.collectionfinish k w.ids],
           Own k e = true ∧ isReady e = false ∧ complIdx e = none := by
